@@ -161,7 +161,21 @@ pub fn build(bytes: &[u8]) -> Built {
     let ctx: &'static str;
     let line_of = |t: &str| t.matches('\n').count() + 1;
     let line;
-    match c.below(8) {
+    let mut class = class;
+    match c.below(9) {
+        8 => {
+            // the failing operator is the range test of one arm of a match laid out over several lines
+            ctx = "match-range-arm";
+            class = "match-range";
+            let (scrut, lo, hi) = [("\"zz\"", "5", "9"), ("null", "1", "3"), ("7", "\"a\"", "\"f\""), ("[1]", "0", "9")][c.below(4)];
+            let before = c.below(3);
+            text.push_str(&format!("let scrut = {};\nlet m = match scrut {{\n", scrut));
+            for k in 0..before {
+                text.push_str(&format!("  {} => {},\n", if lo.starts_with('"') { format!("\"q{}\"", k) } else { format!("{}", 100 + k) }, k));
+            }
+            line = line_of(&text);
+            text.push_str(&format!("  {}..{}{} => 20,\n  _ => 30,\n}};\n", lo, if c.bool() { "=" } else { "" }, hi));
+        }
         0 | 1 => {
             ctx = "top";
             line = line_of(&text);
@@ -268,9 +282,68 @@ pub fn run(ctx: &mut Ctx) {
         }
         check_src(ctx, "lines", &b.src, b.line, b.class)
     });
+    set_shrink_iters(60);
+    let e2e_shards = 4.min(ctx.nshards);
+    if ctx.shard < e2e_shards {
+        drive(ctx, "binary", ctx.tier.pick(480, 16_000) / e2e_shards as u32, 8, 64, |ctx, bytes| binary_case(ctx, bytes));
+    }
+}
+
+/// through the real binary: the `[line N]` prefix on stderr, for script files and -c, also when the text starts
+/// with blank or whitespace-only lines
+fn binary_case(ctx: &mut Ctx, bytes: &[u8]) -> Vec<Violation> {
+    let b = build(bytes);
+    if b.fillers.iter().any(|f| *f == "filter") {
+        return vec![]; // filter mode waits for a stream; the in-process section covers filters
+    }
+    let mut c = Choices::new(bytes);
+    let k = c.below(4);
+    let nl = if b.crlf { "\r\n" } else { "\n" };
+    let mut lead = String::new();
+    for i in 0..k {
+        lead.push_str(["", "  ", "\t", " \t "][(i + bytes.len()) % 4]);
+        lead.push_str(nl);
+    }
+    let src = format!("{}{}", lead, b.src);
+    let line = b.line + k;
+    let cmd_mode = bytes.last().map(|x| x % 3 == 0).unwrap_or(false);
+    ctx.case(hash_str(&src) ^ cmd_mode as u64, k > 0);
+    ctx.class("binary");
+    if k > 0 {
+        ctx.class("binary:leading-blank-lines");
+    }
+    run_binary(ctx, &src, line, b.class, cmd_mode)
+}
+
+fn run_binary(ctx: &mut Ctx, src: &str, line: usize, class: &str, cmd_mode: bool) -> Vec<Violation> {
+    use super::super::e2e::{self, Opts};
+    let case = json!({"binary": true, "src": src, "line": line, "class": class, "cmd_mode": cmd_mode});
+    let args = if cmd_mode { vec!["-c".to_string(), src.to_string()] } else { vec![e2e::script_file("c13.p2", src)] };
+    let r = e2e::run(Opts::new(args));
+    if r.spawn_error.is_some() || r.timed_out {
+        ctx.infra("C13: binary run failed to spawn or timed out".to_string());
+        return vec![];
+    }
+    if let Some(c) = r.crashed() {
+        return vec![Violation::new("binary", e2e::crash_signature(&c), format!("{}\n{}", c, src), case)];
+    }
+    let err = r.err_text();
+    let want = format!("[line {}] Runtime error", line);
+    if !err.contains(&want) {
+        let got = err.lines().find(|l| l.contains("Runtime error")).unwrap_or("(no runtime error line)").to_string();
+        return vec![Violation::new("binary", format!("binary:wrong-line:{}", if cmd_mode { "command" } else { "script" }), format!("the failing construct is on line {} of the {}; stderr says: {}\n{}", line, if cmd_mode { "-c text" } else { "script file" }, got, src), case)];
+    }
+    vec![]
 }
 
 pub fn replay(section: &str, case: &Value, ctx: &mut Ctx) {
+    if case.get("binary").is_some() {
+        let vs = run_binary(ctx, case["src"].as_str().unwrap_or(""), case["line"].as_u64().unwrap_or(0) as usize, "replay", case["cmd_mode"].as_bool().unwrap_or(false));
+        for v in vs {
+            ctx.report(v);
+        }
+        return;
+    }
     let src = case["src"].as_str().unwrap_or("");
     let line = case["line"].as_u64().unwrap_or(0) as usize;
     let class = case["class"].as_str().unwrap_or("?");
